@@ -106,10 +106,21 @@ impl FolderMerge for Folder {
                         let meta = access_point.decrypt_meta(aead).await?;
                         access_point.set_vault_meta(&meta).await?;
                     }
-                    WriteEvent::CreateSecret(id, vault_commit) => {
+                    WriteEvent::CreateSecret(id, vault_commit)
+                    | WriteEvent::UpdateSecret(id, vault_commit) => {
                         let (meta, secret) = access_point
                             .decrypt_secret(vault_commit, None)
                             .await?;
+
+                        // After an event log was rewound for an
+                        // auto merge the vault still holds the
+                        // local changes so a create event may be
+                        // for a secret that exists and an update
+                        // event for a secret that was deleted; the
+                        // merged events must win like they do when
+                        // the event log is reduced
+                        let exists =
+                            access_point.raw_secret(id).await?.is_some();
 
                         #[allow(irrefutable_let_patterns)]
                         let mut urn =
@@ -124,8 +135,16 @@ impl FolderMerge for Folder {
                             if let FolderMergeOptions::Search(
                                 folder_id,
                                 index,
-                            ) = &options
+                            ) = &mut options
                             {
+                                // Must remove from the index before we
+                                // prepare a new document otherwise the
+                                // document would be stale as `prepare()`
+                                // and `commit()` are for new documents
+                                if exists {
+                                    index.remove(folder_id, id);
+                                }
+
                                 Some(
                                     index.prepare(
                                         folder_id, id, &meta, &secret,
@@ -135,8 +154,14 @@ impl FolderMerge for Folder {
                                 None
                             };
 
-                        let row = SecretRow::new(*id, meta, secret);
-                        access_point.create_secret(&row).await?;
+                        if exists {
+                            access_point
+                                .update_secret(id, meta, secret)
+                                .await?;
+                        } else {
+                            let row = SecretRow::new(*id, meta, secret);
+                            access_point.create_secret(&row).await?;
+                        }
 
                         // Add to the URN lookup index
                         if let (
@@ -146,44 +171,6 @@ impl FolderMerge for Folder {
                         {
                             index.insert((*folder_id, urn), *id);
                         }
-
-                        #[cfg(feature = "search")]
-                        if let (
-                            Some(index_doc),
-                            FolderMergeOptions::Search(_, index),
-                        ) = (index_doc.take(), &mut options)
-                        {
-                            index.commit(index_doc);
-                        }
-                    }
-                    WriteEvent::UpdateSecret(id, vault_commit) => {
-                        let (meta, secret) = access_point
-                            .decrypt_secret(vault_commit, None)
-                            .await?;
-
-                        #[cfg(feature = "search")]
-                        let mut index_doc =
-                            if let FolderMergeOptions::Search(
-                                folder_id,
-                                index,
-                            ) = &mut options
-                            {
-                                // Must remove from the index before we
-                                // prepare a new document otherwise the
-                                // document would be stale as `prepare()`
-                                // and `commit()` are for new documents
-                                index.remove(folder_id, id);
-
-                                Some(
-                                    index.prepare(
-                                        folder_id, id, &meta, &secret,
-                                    ),
-                                )
-                            } else {
-                                None
-                            };
-
-                        access_point.update_secret(id, meta, secret).await?;
 
                         #[cfg(feature = "search")]
                         if let (
